@@ -105,7 +105,8 @@ def _make_float_literal(value: float) -> cst.BaseExpression:
     if math.isinf(value):
         literal = "'inf'" if value > 0 else "'-inf'"
         return cst.Call(func=cst.Name("float"), args=[cst.Arg(value=cst.SimpleString(literal))])
-    if value < 0:
+    if value < 0 or (value == 0 and math.copysign(1.0, value) < 0):
+        # "-0.0" is not a float token either: the sign is a unary operator.
         return cst.UnaryOperation(operator=cst.Minus(), expression=cst.Float(str(-value)))
     return cst.Float(str(value))
 
@@ -163,7 +164,14 @@ def _value_to_cst(value: Any) -> cst.BaseExpression:  # noqa: C901
     if isinstance(value, bytes):
         return cst.SimpleString(repr(value))
     if isinstance(value, complex):
-        return cst.SimpleString(repr(value))
+        # repr() of a complex number, e.g. "(1+2j)", is not a string literal.
+        return cst.Call(
+            func=cst.Name("complex"),
+            args=[
+                cst.Arg(value=_make_float_literal(value.real)),
+                cst.Arg(value=_make_float_literal(value.imag)),
+            ],
+        )
     if tu.is_enum(type(value)):
         # EnumClass.MEMBER
         class_name = type(value).__name__
